@@ -8,16 +8,21 @@ META = {
                  "integer/boolean expression trees; the semantics itself is validated against g++ constant evaluation; the real "
                  "parser+evaluator is run against both the model and g++ on generated expressions under ASan/UBSan",
     "category": "proof",
-    "level_text": "Proof (no bounds) for all integer/boolean expression trees whose C++ result is defined: value, signedness and "
-                  "width of occa's result equal the C++ result (C14_agrees), literal text gets the C++ type (C14_literal_type), "
-                  "operands C++ does not evaluate are not evaluated (C14_lazy_*), outside three listed deviations kept as known "
-                  "findings (~bool, bool&|^bool, ?: with differently typed branches). Floating-point VALUES are covered by "
-                  "differential testing only (model = occa = g++ on generated expressions), types of float expressions likewise.",
+    "level_text": "Proof (no bounds, induction on the tree) for all expression trees whose C++ result is defined: value, signedness "
+                  "and width of occa's result equal the C++ result (C14_agrees_partial for the integer/boolean fragment, "
+                  "C14_agrees_float_partial with floating literals), literal text gets the C++ type also in context "
+                  "(C14_literal_type, C14_literal_in_context, C14_float_literal_type), operands C++ does not evaluate are not "
+                  "evaluated (C14_lazy_*), outside three listed deviations kept as known findings (~bool, bool&|^bool, ?: with "
+                  "differently typed branches). For floating point the proof shows that occa applies the same IEEE operations to "
+                  "the same operands in the same types as C++ prescribes; the IEEE operations themselves are uninterpreted and "
+                  "covered by differential testing (model = occa = g++/clang on generated expressions).",
     "level_note": "Trusted: Lean kernel; translate/gen_prim.py (regex extraction of the case rows, rank order, retType rule, "
-                  "integerLiteral branches, evaluate() bodies); the hand transcription of primitive::load's scanning loops and of "
-                  "evaluate() in OccaModel/Prim.lean (validated by the correspondence run); that g++ implements the C++17 semantics "
-                  "stated in OccaModel/CxxSem.lean (validated on every run: CxxSem = g++ on all generated expressions, including "
-                  "which ones are undefined); the expression parser is exercised (text -> tree) but not modelled.",
+                  "integerLiteral branches, evaluate() bodies; hash pins of the hand-modelled functions); the hand transcription of "
+                  "primitive::load's scanning loops and of evaluate() in OccaModel/Prim.lean (validated by the correspondence run); "
+                  "that g++/clang implement the C++17 semantics stated in OccaModel/CxxSem.lean (validated on every run: CxxSem = "
+                  "host compilers on all generated expressions, including which ones are undefined); that Lean's Float/Float32 "
+                  "are the host's IEEE double/float (validated by the same run); strtod modelled exactly only for literals with "
+                  "mantissa < 2^53 and |decimal exponent| <= 22; the expression parser is exercised (text -> tree) but not modelled.",
     "design_ref": "DESIGN.md section 4, C14",
 }
 
